@@ -10,7 +10,7 @@ LLSE_NOTE = ('Trusted base: rustc/LLVM up to the emitted IR (the IR is what is c
 
 CLAIMED = {
  'C01': dict(
-    text='Partial claim, bounded symbolic model checking through the whole real pipeline: 21 accepted program templates (sums, differences and comparisons of mixed units, the dimension-polymorphic literals 0 / inf / NaN on either side of +, -, comparisons and conditionals, generic functions with a Dim bound, products, quotients, literal integer and rational powers of units, conversions, where-clauses, struct fields) run in a real session with every magnitude a symbolic double; on every feasible path evaluation must not fail with a unit-incompatibility error nor with anything but the documented value-dependent errors, and the run-time unit of the result must have the dimension the template\'s static type has. The defect named in the property text (computed non-integer exponents) is outside this claim and NOT found; one genuine defect class (polymorphic inf / NaN literals) is a known finding.',
+    text='Partial claim, bounded symbolic model checking through the whole real pipeline: 21 accepted program templates (sums, differences and comparisons of mixed units, the dimension-polymorphic literals 0 / inf / NaN on either side of +, -, comparisons and conditionals, generic functions with a Dim bound, products, quotients, literal integer and rational powers of units, conversions, where-clauses, struct fields) run in a real session with every magnitude a symbolic double; on every feasible path evaluation must not fail with a unit-incompatibility error nor with anything but the documented value-dependent errors, and the run-time unit of the result must have the dimension the template\'s static type has. A second, structural kernel (thorough tier only so far; the quick tier runs the templates) makes the program itself symbolic at the token level: the real parser runs on symbolic token kinds (37-kind expression alphabet, every sequence up to 3 tokens (thorough: 4) plus templates with a symbolic operator; names: a function Length -> Time, a generic identity, a Length variable, the units meter and second), and every expression the checker accepts is evaluated through Context::interpret: its value must carry the dimension the CHECKER reported for it, and a run-time failure must be a documented value-dependent error. The defect named in the property text (computed non-integer exponents) is outside this claim and NOT found; one genuine defect class (polymorphic inf / NaN literals) is a known finding.',
     design_ref='DESIGN.md §4 C01', technique='symbolic execution of LLVM IR (whole interpreter pipeline) + SMT (z3 QF_FPBV), native replay'),
  'C03': dict(
     text='Bounded symbolic model checking of the compiled arithmetic path (VM Add/Subtract/Multiply/Divide/Power opcodes, unit products, transitive base-unit factors, prefix factors): for each selected (operator, unit, unit) triple over prefixed standard-library units and all doubles a, b the result has exactly the dimension vector that dimensional analysis of the unit definitions gives, NaN propagates, finite operands never yield NaN, signs and the zero shortcuts follow the operands, nothing panics, and the base-unit value for magnitudes 1 agrees (32 ulp) with exact rational arithmetic on the definition trees computed independently by the plan.',
@@ -55,17 +55,17 @@ CLAIMED = {
     text='Partial claim (temperature scales), bounded symbolic model checking through the whole real pipeline: the real module physics::temperature_conversion is imported into a real session; for a symbolic double x with |x| <= 10^6 the programs celsius(from_celsius(x)) and from_celsius(celsius(x kelvin)), also with the temperature written in millikelvin (thorough tier: the Fahrenheit pair and further prefixes as well) are interpreted, and the solver proves the round trip restores x within 1e-9 (1e-8) on every feasible path. This is a floating-point tolerance claim that is decidable because the Celsius pair only adds and subtracts a constant.',
     design_ref='DESIGN.md §0a / §4 C23', technique='symbolic execution of LLVM IR (whole interpreter pipeline) + SMT (z3 QF_FP), native replay'),
  'C06': dict(
-    text='Partial claim (definitions followed by a failing expression statement in the same input), bounded symbolic model checking through the whole real pipeline: an input consists of concrete successful definitions (six families: a variable; a redefinition of an existing function; a derived unit; a new dimension with a unit; a variable shadowing an existing one; a struct) followed by an expression statement whose token kinds are symbolic (37-kind alphabet; every sequence up to the stated length, and templates around run-time failures — division by zero, factorial of a negative number — with symbolic operators). Whenever Context::interpret rejects the input — parse error, unknown name, type error or run-time error — every probe expression must give the same value or the same class of error as before the input, and re-submitting the successful definitions followed by the probes must behave exactly as in a twin session that never saw the failing input. Failing inputs that import modules (the defect named in the property text) are outside this kernel.',
+    text='Partial claim (successful statements followed by a failing expression statement in the same input), bounded symbolic model checking through the whole real pipeline: an input consists of concrete successful statements (nine families: a variable; a redefinition of an existing function; a derived unit; a new dimension with a unit; a variable shadowing an existing one; a struct; expression statements only, with the last result ans / _ probed; the import of a real standard-library module, which must be importable again with the same effect; the import of a module that does not exist) followed by an expression statement whose token kinds are symbolic (37-kind alphabet; every sequence up to the stated length, and templates around run-time failures — division by zero, factorial of a negative number — with symbolic operators). Whenever Context::interpret rejects the input — parse error, unknown name, type error or run-time error — every probe expression must give the same value or the same class of error as before the input, and re-submitting the successful definitions followed by the probes must behave exactly as in a twin session that never saw the failing input. The module-import family found the defect named in the property text on the unchanged tree (a failed input kept its imports; fixed by 4939d62).',
     design_ref='DESIGN.md §0a C06', technique='symbolic execution of LLVM IR (whole interpreter pipeline) over symbolic token kinds + SMT (z3 QF_BV), twin-session differential, native replay'),
  'C07': dict(
-    text='Partial claim (definitions followed by one expression statement; submission as two inputs vs one joined input; a copy taken before), bounded symbolic model checking through the whole real pipeline: for six families of concrete definitions and an expression statement whose token kinds are symbolic (37-kind alphabet; every accepted sequence up to the stated length, plus templates with symbolic operators), session A receives definitions and expression as two inputs, session B as one joined input; whenever both inputs of A succeed, B must succeed with the same type and the bit-identical value, all probe expressions must agree between A and B afterwards, and a copy of A taken before the inputs must answer the probes exactly as an untouched session does. Replaying saved history, printed output and imports are outside this kernel.',
+    text='Partial claim (definitions followed by one expression statement; submission as two inputs vs one joined input; a copy taken before), bounded symbolic model checking through the whole real pipeline: for six families of concrete definitions (and one of expression statements only, in which the expression reads the last result ans in a session that already holds one) and an expression statement whose token kinds are symbolic (37-kind alphabet; every accepted sequence up to the stated length, plus templates with symbolic operators), session A receives definitions and expression as two inputs, session B as one joined input; whenever both inputs of A succeed, B must succeed with the same type and the bit-identical value, all probe expressions must agree between A and B afterwards, and a copy of A taken before the inputs must answer the probes exactly as an untouched session does. Replaying saved history, printed output and imports are outside this kernel.',
     design_ref='DESIGN.md §0a C07', technique='symbolic execution of LLVM IR (whole interpreter pipeline) over symbolic token kinds + SMT (z3 QF_BV), two-session differential, native replay'),
  'C16': dict(
     text='Partial claim (two-parameter functions whose bodies are operator expressions), bounded symbolic model checking through the whole real pipeline: the body\'s token kinds are symbolic (37-kind expression alphabet; every sequence up to the stated length that the real parser accepts, and longer templates — sums, products, quotients, integer powers, comparisons, conditionals, parentheses — with symbolic operator positions); `fn g(a, b) = body` is interpreted without annotations in a session with two base dimensions; if the checker accepts it, the statement it echoes (the inferred signature spelled out, generic parameters with their Dim bounds) is interpreted as a re-declaration and must be accepted and echo the same signature, and each of five call sites (scalars, one unit, the same unit twice, two units, a square) must be accepted or rejected identically, with the same type and the bit-identical value, before and after. Structure is enumerated by the solver exploring the parser; nothing here is a floating-point claim.',
     design_ref='DESIGN.md §0a C16', technique='symbolic execution of LLVM IR (whole interpreter pipeline) over symbolic token kinds + SMT (z3 QF_BV), replay-mode path exploration, native replay'),
  'C02': dict(
-    text='Partial claim (the constraint solver), bounded symbolic model checking of the compiled code: ConstraintSet::solve (Constraint::try_satisfy, DType::from_factors / divide / multiply / power with their canonicalisation, Substitution::apply) runs on dimension equations over two type variables and two base dimensions whose exponents are symbolic integers in [-3, 3]; on every feasible path the solver must accept exactly the systems that are consistent over the rationals (decided by an integer determinant / minor oracle), and the returned substitution must make both sides of every equation the same dimension. Accept/reject of whole programs and constraint generation are outside the claim.',
-    design_ref='DESIGN.md §0a / §4 C02', technique='symbolic execution of LLVM IR + SMT (z3 QF_BV), replay-mode path exploration, linear-algebra oracle'),
+    text='Partial claim (expression statements; the constraint solver), bounded symbolic model checking of the compiled code. (1) Accept kernel through the whole real pipeline: the token kinds of an expression statement are symbolic (37-kind alphabet; every sequence of up to 3 tokens (thorough: 4) that the real parser accepts, plus templates with a symbolic operator position: sums, products, powers with constant exponent expressions, comparisons, conditionals, lists, calls of a function Length -> Time and of a generic identity, reverse application); a reference written from the property text (ordinary dimensional analysis: exponent vectors over Length and Time with exact rationals, on the dimensions DECLARED for the names) decides consistent / inconsistent / outside-the-reference for the real syntax tree; Context::interpret must reject exactly the inconsistent ones with a type error, the type it reports for an accepted expression must equal the reference dimension, and a rejected input (which also contains a definition and a print statement before the expression) must print nothing and define nothing. (2) Constraint solver: ConstraintSet::solve (Constraint::try_satisfy, DType::from_factors / divide / multiply / power with their canonicalisation, Substitution::apply) runs on dimension equations over two type variables and two base dimensions whose exponents are symbolic integers in [-3, 3]; on every feasible path the solver must accept exactly the systems that are consistent over the rationals (decided by an integer determinant / minor oracle), and the returned substitution must make both sides of every equation the same dimension. Definitions, annotations, user generics, structs and the polymorphic literals are outside the accept kernel.',
+    design_ref='DESIGN.md §0a / §4 C02', technique='symbolic execution of LLVM IR (whole interpreter pipeline over symbolic token kinds; constraint-solver kernel) + SMT (z3 QF_BV), replay-mode path exploration, reference dimensional analysis and linear-algebra oracles, native replay'),
 }
 
 NOT_APPLICABLE = {
